@@ -1,4 +1,5 @@
 import ComposeVerif.Model.Interp
+import ComposeVerif.Spec.Template
 /-!
 # What property C08 says, in the vocabulary of the model
 
@@ -35,12 +36,8 @@ def SameShapeList : List Val → List Val → Prop
   | v :: r, l' => ∃ v' r', l' = v' :: r' ∧ SameShape v v' ∧ SameShapeList r r'
 end
 
-/-- every `$` written `$$` -/
-def escapeDollars : Str → Str
-  | [] => []
-  | c :: cs => if c = '$' then '$' :: '$' :: escapeDollars cs else c :: escapeDollars cs
-
-def escapeStr (s : String) : String := String.ofList (escapeDollars s.toList)
+/-- every `$` written `$$` (`CV.Template.escapeDollars`, shared with C07) -/
+def escapeStr (s : String) : String := String.ofList (CV.Template.escapeDollars s.toList)
 
 mutual
 /-- every `$` of every string value written `$$` -/
@@ -133,18 +130,13 @@ def expectedRows : List (List String × Caster) := [
   (["secrets", "*", "external"], .toBoolean),
   (["configs", "*", "external"], .toBoolean)]
 
-def isOctDigit (c : Char) : Bool := '0' ≤ c && c ≤ '7'
-
-/-- what yaml.v3 makes of the *plain literal* `0[0-7]+` (the YAML 1.1 octal spelling, still honoured by yaml.v3's
-    `resolve`: `strconv.ParseInt(s, 0, 64)`); tied to yaml.v3 by the `c08casters` correspondence -/
-def yamlLegacyOctal (s : String) : Option Int :=
+/-- what yaml.v3's `resolve` makes of a *plain literal* as `!!int` (int64 range): only texts starting with a digit or a
+    sign are candidates (`resolveTable`), underscores are dropped, then `yamlIntCore`.  Tied to yaml.v3 by the
+    `c08casters` correspondence (`yaml.Unmarshal` of the text into `any`). -/
+def yamlInt (s : String) : Option Int :=
   match s.toList with
-  | '0' :: ds =>
-    if !ds.isEmpty && ds.all isOctDigit then
-      let n := ds.foldl (fun n c => 8 * n + digitVal c) 0
-      if n ≤ 9223372036854775807 then some (n : Int) else none
-    else none
-  | _ => none
+  | c :: _ => if c.isDigit || c == '+' || c == '-' then yamlIntCore (stripUnderscores s.toList) else none
+  | [] => none
 
 /-- the numeric kind a caster produces, as the decode-time cast sees the Go target kind -/
 inductive NumKind | int | float | bool
